@@ -353,3 +353,40 @@ func TestC11_Concurrent(t *testing.T) {
 		judge(t, "c11.concurrent", c11ConcCheck, c)
 	}
 }
+
+type concErrCase struct {
+	Cases      []errCase `json:"cases"`
+	Goroutines int       `json:"goroutines"`
+	Rounds     int       `json:"rounds"`
+}
+
+var c15ConcCheck = register("C15", "c15.concurrent", func(c *concErrCase) error {
+	return concurrently(c.Cases, c.Goroutines, c.Rounds, c15Check)
+})
+
+func TestC15_Concurrent(t *testing.T) {
+	cov.Rule(c15Rule + " || " + concRule)
+	for round := 0; round < pick(2, 10); round++ {
+		var cases []errCase
+		for i := 0; i < 8; i++ {
+			l := ref.Lang((i*3 + round) % int(ref.NumLangs))
+			idx := ref.Indices(concEntropies(round + i)[i%8])
+			valid := strings.Join(ref.Words(l, idx), " ")
+			bad := append([]int(nil), idx...)
+			bad[len(bad)-1] ^= 1 // flips a checksum bit: the only defect is the checksum
+			words := ref.Words(l, idx)
+			words[len(words)/2] = "notaword#" + fmt.Sprint(i)
+			cases = append(cases,
+				errCase{Lang: l.Name(), Text: text(valid), Want: "valid"},
+				errCase{Lang: l.Name(), Text: text(strings.Join(ref.Words(l, bad), " ")), Want: "checksum"},
+				errCase{Lang: l.Name(), Text: text(strings.Join(words, " ")), Want: "unknown"},
+				errCase{Lang: l.Name(), Text: text(strings.Join(ref.Words(l, idx[:len(idx)-1]), " ")), Want: "count"},
+			)
+		}
+		c := &concErrCase{Cases: cases, Goroutines: 10, Rounds: pick(300, 2000)}
+		cov.Eval(len(cases) * c.Goroutines * c.Rounds)
+		cov.Class("concurrent-batch")
+		cov.NonTrivial("c15.concurrent", []byte(fmt.Sprint(round, cfg.Tier)))
+		judge(t, "c15.concurrent", c15ConcCheck, c)
+	}
+}
